@@ -509,6 +509,7 @@ fn exec_f(
         write_max: None,
         repeat: None,
         repeat_cap: 0,
+        write_fail_at: None,
     };
     let retry = fault.is_some();
     let _world = World::single(script, false);
